@@ -1,4 +1,5 @@
 import AvgProofs.MomentsTree
+import AvgProofs.MomentsFold
 import AvgProofs.MinMaxTree
 import Mathlib.Data.EReal.Basic
 
@@ -70,10 +71,16 @@ end Moments
 
 /-! ## `define_moments!` types -/
 
--- TODO(C19, define_moments!): `par_collect_moments` - for every order N and every tree `t`,
--- `t.eval (Moments.new N) (Moments.add N) (Moments.merge N)` has `len = t.flatten.length` and equals
--- `t.flatten.foldl (Moments.add N) (Moments.new N)`. To be added here as a corollary of the C04
--- `mtree` theorem for `Moments N` via `MTree.eval_canon` (handled separately).
+/-- `define_moments!` estimators of every order `N`: every fold/reduce tree gives exactly the
+sequential len() and the sequential estimator (count, mean, all power sums). -/
+theorem par_collect_moments {K : Type} [Field K] [CharZero K] (N : Nat) (t : MTree K) :
+    (t.eval (Moments.new N) (Moments.add N) (Moments.merge N)).len = t.flatten.length
+    ∧ t.eval (Moments.new N) (Moments.add N) (Moments.merge N)
+        = t.flatten.foldl (Moments.add N) (Moments.new N) := by
+  have h : t.eval (Moments.new N) (Moments.add N) (Moments.merge N) = MSpec.canonM N t.flatten :=
+    MSpec.moments_mtree N t
+  rw [h, MSpec.moments_fold]
+  exact ⟨rfl, rfl⟩
 
 /-! ## Min, Max -/
 section MinMax
@@ -233,3 +240,4 @@ end Props.C19
 #print axioms Props.C19.par_collect_max_nan
 #print axioms Props.C19.par_collect_min_exact
 #print axioms Props.C19.par_collect_max_exact
+#print axioms Props.C19.par_collect_moments
